@@ -213,7 +213,7 @@ def gen_cli_multi(rng, tier):
 
 
 def shrink(c):
-    if c.op.startswith("cli"):
+    if c.op.startswith("cli") or c.op == "detannot":
         return
     a = list(c.args)
     rows = [] if a[0] == "_" else [tuple(r.split(":", 1)) for r in a[0].split(",")]
@@ -239,4 +239,10 @@ def gen(rng, tier):
     for _ in range(2 if tier == "quick" else 20):
         for argv in MULTI_CMDS:
             yield multigen.multi_case(multigen.alignments(rng), argv, "cli-multi-" + "-".join(argv[:2]))
-
+    # `extract`: the annotation file compressed (`.gz`) or given on the standard input (alignment from `-i`) = the plain file
+    # (what the plain run must print is decided by the `cli_libf` cases above)
+    for c in cligen.cases(rng, ['extract'], 25 if tier == "quick" else 250):
+        a = [str(x) for x in c.args]
+        if a[1].startswith("ann.txt=") and "ann.txt" in a[3:]:
+            yield Case("detannot", [a[0], a[1][len("ann.txt="):] or "_"] + [("@ANN@" if x == "ann.txt" else x) for x in a[2:]], True,
+                       c.tag.replace("cli-extract", "cli-extract-annotation-gz-stdin"))
